@@ -72,8 +72,9 @@ func (a *activityManager) BecomeLeader() error {
 	if err := a.createActivityStream(); err != nil {
 		return err
 	}
-	a.leadershipLostCh = make(chan struct{})
-	a.startGoroutine(a.dispatch)
+	leadershipLostCh := make(chan struct{})
+	a.leadershipLostCh = leadershipLostCh
+	a.startGoroutine(func() { a.dispatch(leadershipLostCh) })
 	return nil
 }
 
@@ -84,8 +85,11 @@ func (a *activityManager) BecomeFollower() error {
 		return nil
 	}
 
+	// Leadership can be lost without BecomeLeader having run for this term
+	// (promotion failed earlier), so forget the channel once it is closed.
 	if a.leadershipLostCh != nil {
 		close(a.leadershipLostCh)
+		a.leadershipLostCh = nil
 	}
 	return nil
 }
@@ -93,15 +97,16 @@ func (a *activityManager) BecomeFollower() error {
 // dispatch is a long-running goroutine that runs while the server is the
 // metadata leader. It handles publishing events to the activity stream as they
 // are committed to the Raft log. Events are always published in the order in
-// which they were committed to the log.
-func (a *activityManager) dispatch() {
+// which they were committed to the log. It stops when the channel of the
+// leadership term it was started for is closed.
+func (a *activityManager) dispatch(leadershipLostCh <-chan struct{}) {
 	var (
 		raftNode = a.getRaft()
 		index    = a.LastPublishedRaftIndex() + 1
 	)
 	for {
 		select {
-		case <-a.leadershipLostCh:
+		case <-leadershipLostCh:
 			return
 		default:
 		}
@@ -112,7 +117,7 @@ func (a *activityManager) dispatch() {
 			select {
 			case <-a.commitCh:
 				continue
-			case <-a.leadershipLostCh:
+			case <-leadershipLostCh:
 				return
 			case <-a.shutdownCh:
 				return
@@ -149,7 +154,7 @@ func (a *activityManager) dispatch() {
 			select {
 			case <-time.After(backoff):
 				goto RETRY
-			case <-a.leadershipLostCh:
+			case <-leadershipLostCh:
 				return
 			case <-a.shutdownCh:
 				return
